@@ -51,7 +51,8 @@ class C19(Check):
             if rng.random() < 0.25:
                 off = rng.randint(0, pos)
                 pos -= off
-            v = {"term": t, "sm": sm, "pos": pos, "size": size, "struct_off": off, "via_struct": off > 0 or rng.random() < 0.1}
+            v = {"term": t, "sm": sm, "pos": pos, "size": size, "struct_off": off, "via_struct": off > 0 or rng.random() < 0.2,
+                 "other_off": rng.choice([0, 0, 1, 4, 8]), "coe": rng.choice([0, 0, 0x10])}     # the Struct's offset for the other direction / for CoE indices
             if rng.random() < 0.4:
                 # described by the terminal's PDO table (ProcessDesc), possibly with a size / bit override
                 v["process"] = True
@@ -93,17 +94,24 @@ class C19(Check):
                 for k, v in enumerate(case["vars"]):
                     if v["term"] != ti:
                         continue
+                    def offsets(v):
+                        """(sm3, sm2): the Struct's position offsets for inputs and outputs"""
+                        return (v["struct_off"], v.get("other_off", v["struct_off"])) if v["sm"] == "in" else (v.get("other_off", v["struct_off"]), v["struct_off"])
                     if v.get("process"):
-                        index, coe = 0x6000 + 0x100 * k, (0x10 if v["via_struct"] else 0)
+                        index, coe = 0x6000 + 0x100 * k, (v.get("coe", 0x10) if v["via_struct"] else 0)
                         pd = ProcessDesc(index, 1, v["size"]) if v["override"] else ProcessDesc(index, 1)
-                        t.__dict__.setdefault("pdos", {})[index + coe, 1] = (SM[v["sm"]], v["pos"] + v["struct_off"], v["pdo_size"])
+                        pdos = t.__dict__.setdefault("pdos", {})
+                        pdos[index + coe, 1] = (SM[v["sm"]], v["pos"] + v["struct_off"], v["pdo_size"])
+                        for decoy in (4, 8, 0x10):       # other objects nearby: a wrong index offset finds something else
+                            if decoy != coe:
+                                pdos.setdefault((index + decoy, 1), (SM[v["sm"]], 0, "B"))
                         if v["via_struct"]:
-                            ns[f"s{k}"] = type(f"S{k}", (Struct,), {"m": pd})(0, 0, coe)
+                            ns[f"s{k}"] = type(f"S{k}", (Struct,), {"m": pd})(v.get("other_off", 0), 0, coe)
                         else:
                             ns[f"p{k}"] = pd
                     elif v["via_struct"]:
                         S = type(f"S{k}", (Struct,), {"m": PacketDesc(SM[v["sm"]], v["pos"], v["size"])})
-                        ns[f"s{k}"] = S(v["struct_off"], v["struct_off"])
+                        ns[f"s{k}"] = S(*offsets(v))
                     else:
                         ns[f"p{k}"] = PacketDesc(SM[v["sm"]], v["pos"] + v["struct_off"], v["size"])
                 t.__class__ = type(f"T{ti}", (type(t),), ns)
